@@ -22,7 +22,10 @@ ODD_LITS = ["a\\|b", "x\\;y", "\\(p\\)", "q\\\"r", "dot.", "..", "a\\.\\.\\.b", 
             "#hash", "a&b", "k=v", "+x", "@at", "^caret", "c:/path", "co,mma", "\\[b\\]", "\\{c\\}", "\\<lt\\>", "back\\\\sl"]
 CMDS = ["echo foo; echo bar", "printf '%s\\n' a b c", "compgen -A file -- \"$1\"", "git branch --format='%(refname:short)'",
         "ls -1 | sort", "echo \"$1\" \"$2\"", "cat /etc/shells", ":", "_users", "Get-ChildItem | % { $_.Name }",
-        "__fish_complete_users", "echo 'tab\tsep'", "echo {a,b}c"]
+        "__fish_complete_users", "echo 'tab\tsep'", "echo {a,b}c",
+        # multi-line command texts: indentation, blank and whitespace-only lines inside are data
+        "if true; then\n        echo a\n\n        echo b\n    fi", "echo first\n\n\n  echo second\n \n    echo third",
+        "cat <<'EOF'\n  indented\n\nEOF", "\n\n  echo leading-blank-lines\n"]
 NTNAMES = ["OPTION", "FILE", "WHEN", "NUM", "MODE", "REF", "SUB", "ARG", "value", "qualifier", "cmd-name", "X", "Y", "Z"]
 
 
@@ -113,6 +116,11 @@ class G:
             # the value is a nonterminal whose definition is itself a within-word expression (nested words get collapsed)
             name = "WORD%d" % (len(self.defs) + len(self.cmd_defs))
             inner = r.choice(["x(y | z)", "p%d{{{ echo q }}}" % r.below(9), "k<ANY%d>" % r.below(5), "(a | b)[,(a | b)]...", "v=(on | off)"])
+            # ... possibly through one or two more levels of within-word definitions (key=<VALUE>, <VALUE> = (a|b):<PATTERN>)
+            for lvl in range(r.weighted([(3, 0), (2, 1), (2, 2)])):
+                deeper = "WORD%d_%d" % (len(self.defs) + len(self.cmd_defs), lvl)
+                self.defs[deeper] = inner
+                inner = r.choice(["k%d=<%s>", "(exact%d | glob):<%s>", "<KEYUNDEF%d>=<%s>", "n%d<%s>"]) % (lvl, deeper)
             self.defs[name] = inner
             tail = "<%s>" % name
         else:
@@ -155,7 +163,8 @@ class G:
 def gen_grammar(rng, size=12, command=None):
     """Returns grammar text.  `size` ~ number of atoms."""
     g = G(rng, size)
-    command = command or rng.choice(["cmd", "mytool", "x-y", "a.b", "t_1"])
+    # every character the terminal syntax admits may appear in a command name except `/`
+    command = command or rng.choice(["cmd", "mytool", "x-y", "a.b", "t_1", "cmd", "mytool", "it's", "c++", "a:b", "k=v", "50%", "x@y", "~t", "a,b", "q?"])
     nvariants = rng.weighted([(6, 1), (3, 2), (1, 3)])
     stmts = []
     for _ in range(nvariants):
@@ -458,3 +467,38 @@ def shape_corpus():
         ("many1_in_word", "cmd -s<P>:<S>[,<S>]...;\n<P> = TCP | UDP;\n<S> = [^](LISTEN | CLOSED);\n"),
         ("strace_expr", "strace -e <EXPR>;\n<EXPR> = [<qualifier>=][!]<value>[,<value>]...;\n<qualifier> = trace | read | write | fault;\n<value> = %file | file | all;\n"),
     ]
+
+
+def repo_test_grammars(repo):
+    """Grammar texts the repository's own tests use (raw strings in the parser/checker/regex/DFA unit tests, triple-quoted strings in
+    e2e/*.py): the authors' corner cases are a workload too.  Non-grammars among them are harmless (rejected with a diagnostic)."""
+    import glob
+    import os
+    out = []
+    for name in ("parse.rs", "check.rs", "regex.rs", "dfa.rs", "tables.rs"):
+        try:
+            with open(os.path.join(repo, "src", name), encoding="utf-8", errors="replace") as f:
+                src = f.read()
+        except OSError:
+            continue
+        for m in re.finditer(r'r#"(.*?)"#', src, re.S):
+            out.append(m.group(1))
+        for m in re.finditer(r'(?:parse|get_validated_grammar|from_str|Grammar::parse)\(\s*"((?:[^"\\\\]|\\\\.)*)"', src):
+            out.append(m.group(1).replace('\\"', '"').replace("\\\\", "\\"))
+    for path in sorted(glob.glob(os.path.join(repo, "e2e", "*.py"))):
+        try:
+            with open(path, encoding="utf-8", errors="replace") as f:
+                src = f.read()
+        except OSError:
+            continue
+        for m in re.finditer(r'"""(.*?)"""', src, re.S):
+            out.append(m.group(1))
+        for m in re.finditer(r"\'\'\'(.*?)\'\'\'", src, re.S):
+            out.append(m.group(1))
+    seen = set()
+    uniq = []
+    for t in out:
+        if t not in seen and len(t) < 20000:
+            seen.add(t)
+            uniq.append(t)
+    return uniq
